@@ -55,6 +55,9 @@ def run(ctx):
     from .pitfalls import rule_groupby_sorted, rule_single_use_iterators
     ctx.do(rule_groupby_sorted, "C12.iterator-pitfalls", ("stix2.datastore",))
     ctx.do(rule_single_use_iterators, "C12.iterator-pitfalls", ("stix2.datastore",))
+    # filters attached to a composite (and those handed down by a parent composite) reach every member on every operation
+    from . import C18
+    ctx.do(C18.rule_member_forward, rule_id="C12.all-answers-filtered")
     from .hidden_state import rule_no_hidden_state
     ctx.do(rule_no_hidden_state, "C12.history-independence")
 
@@ -313,6 +316,12 @@ def _optimiser_table(fi):
         roles[norm(call.args[0])] = "allowed_" + kind
         roles[norm(call.args[1])] = "prohibited_" + kind
 
+    aliases = {}
+
+    def anorm(e):
+        t_ = norm(e)
+        return aliases.get(t_, t_)
+
     def effects(stmts):
         eff = set()
         for s in stmts:
@@ -324,12 +333,12 @@ def _optimiser_table(fi):
                 if tgt == "allowed_types":
                     if arg is not None and "get_type_from_id" in norm(arg):
                         eff.add("allow-type-of-id")
-                    elif arg is not None and norm(arg) == fvar + ".value":
+                    elif arg is not None and anorm(arg) == fvar + ".value":
                         eff.add("allow-type")
                     else:
                         eff.add("allow-type:?" + (norm(arg) if arg is not None else ""))
                 elif tgt == "allowed_ids":
-                    if arg is not None and norm(arg) == fvar + ".value":
+                    if arg is not None and anorm(arg) == fvar + ".value":
                         eff.add("allow-id")
                     else:
                         eff.add("allow-id:?" + (norm(arg) if arg is not None else ""))
@@ -341,7 +350,7 @@ def _optimiser_table(fi):
             elif isinstance(s, ast.Expr) and isinstance(s.value, ast.Call) and isinstance(s.value.func, ast.Attribute) \
                     and s.value.func.attr == "add":
                 recv = roles.get(norm(s.value.func.value), norm(s.value.func.value))
-                arg = norm(s.value.args[0]) if s.value.args else ""
+                arg = anorm(s.value.args[0]) if s.value.args else ""
                 if recv == "prohibited_types" and arg == fvar + ".value":
                     eff.add("prohibit-type")
                 elif recv == "prohibited_ids" and arg == fvar + ".value":
@@ -353,7 +362,7 @@ def _optimiser_table(fi):
         return eff
 
     def ops_of(test):
-        if isinstance(test, ast.Compare) and norm(test.left) == fvar + ".op":
+        if isinstance(test, ast.Compare) and anorm(test.left) == fvar + ".op":
             if isinstance(test.ops[0], ast.Eq) and isinstance(test.comparators[0], ast.Constant):
                 return [test.comparators[0].value]
             if isinstance(test.ops[0], ast.In) and isinstance(test.comparators[0], (ast.Tuple, ast.List, ast.Set)):
@@ -367,12 +376,26 @@ def _optimiser_table(fi):
         skips.append(stmts[0].test)
         stmts = stmts[1:]
     out["<skips>"] = skips
+    # a prelude before the chain: plain aliases of the filter's fields are read through; anything else is handed to the rule
+    # (the table below is then judged with the names the prelude defines, which differ from `<filter>.value`)
+    other = []
+    while len(stmts) > 1:
+        s0 = stmts[0]
+        if isinstance(s0, ast.Assign) and len(s0.targets) == 1 and isinstance(s0.targets[0], ast.Name) \
+                and norm(s0.value) in (fvar + ".value", fvar + ".op", fvar + ".property") \
+                and not any(isinstance(x, (ast.Assign, ast.AugAssign)) and s0.targets[0].id in [norm(t_) for t_ in (
+                    x.targets if isinstance(x, ast.Assign) else [x.target])] for s_ in stmts[1:] for x in ast.walk(s_)):
+            aliases[s0.targets[0].id] = norm(s0.value)
+        else:
+            other.append(s0)
+        stmts = stmts[1:]
+    out["<prelude>"] = other
     cur = stmts[0] if len(stmts) == 1 and isinstance(stmts[0], ast.If) else None
     if cur is None:
-        raise AnalysisError("_find_search_optimizations: loop body is not [skip guards +] one if/elif chain")
+        raise AnalysisError("_find_search_optimizations: loop body is not [skip guards + prelude +] one if/elif chain")
     while cur is not None:
         t = cur.test
-        if not (isinstance(t, ast.Compare) and norm(t.left) == fvar + ".property" and isinstance(t.ops[0], ast.Eq)
+        if not (isinstance(t, ast.Compare) and anorm(t.left) == fvar + ".property" and isinstance(t.ops[0], ast.Eq)
                 and isinstance(t.comparators[0], ast.Constant)):
             raise AnalysisError("_find_search_optimizations: unsupported property test %s" % norm(t))
         prop = t.comparators[0].value
@@ -406,6 +429,7 @@ def rule_optimiser(ctx, rule_id="C12.optimiser-table"):
     rel = fi.module.relpath
     table = _optimiser_table(fi)
     skips = table.pop("<skips>", [])
+    prelude = table.pop("<prelude>", [])
     # `in` with a STRING value is a substring test (Filter._check_property: `property in value`): no whitelist of types / ids
     # follows from it, so such a filter must be exempt from the pruning (it is still evaluated on every file read)
     lp = next(n for n in body_walk(fi.node) if isinstance(n, ast.For) and norm(n.iter) == fi.params[0])
@@ -417,6 +441,11 @@ def rule_optimiser(ctx, rule_id="C12.optimiser-table"):
               "'<id>')) is used to prune directories as if the string were a set of values: the filesystem source returns nothing "
               "while the same filter evaluated on the stored objects matches", file=rel, line=lp.lineno, function=fi.qualname,
               expected="if f.op == 'in' and isinstance(f.value, str): continue", found=[short(t_) for t_ in skips])
+    run.check(not prelude, R, key(rel, fi.qualname, "value-used-as-given"),
+              "the loop works on something it computes from the filter before the pruning table (a transformed value, a changed "
+              "operator): what is whitelisted is no longer what the filter evaluated on the stored objects would match", file=rel,
+              line=(prelude[0].lineno if prelude else lp.lineno), function=fi.qualname,
+              expected="the table reads <filter>.property / .op / .value as given", found=[short(s_, 90) for s_ in prelude])
     other_skips = [t_ for t_ in skips if not (("%s.op == 'in'" % fv) in norm(t_) and ("isinstance(%s.value, str)" % fv) in norm(t_))]
     run.check(not other_skips, R, key(rel, fi.qualname, "no-other-exemptions"),
               "filters are exempted from the pruning table under a condition the model does not know", file=rel, line=lp.lineno,
